@@ -473,8 +473,7 @@ def c07(ctx):
     cmds = ["reset", "obj 1 5 2", "hset 0 0 0", "hset 1 0 0"]
     nreq = 0
     for m in cfgev["E"]:
-        for rep in range(1 if quick else 3):
-            s = cheap_setting(m, rng)
+        for s in [cheap_setting(m, rng) for rep in range(1 if quick else 3)] + gen.zero_settings(m, rng):
             for ph in (gen.rand_phrase(rng, rng.choice((1, 7))), gen.rand_phrase(rng, rng.choice((9, 20, 80))),
                        gen.rand_phrase(rng, rng.choice((129, 200, 256, 257, 300, 400, 511)))):
                 nreq += 1
@@ -857,10 +856,12 @@ def c04(ctx):
     un = []
     for m in cfgev["E"]:
         for n in ((0, 1, 8, 9, 64, 129, 257, 511) if quick else (0, 1, 7, 8, 9, 16, 17, 63, 64, 65, 72, 73, 128, 129, 255, 256, 257, 400, 511)):
-            ph, s = gen.rand_phrase(rng, n), cheap_setting(m, rng)
-            for fill in (0, 1, 2, 3):
-                un.append("obj 0 %d %d" % (rng.randrange(16), fill))
-                un.append("%s 0 %s %s" % (rng.choice(("crypt_r", "crypt_rn")), hx(ph), hx(s)))
+            ph = gen.rand_phrase(rng, n)
+            # (also settings whose salt decodes to zero bits or is empty: "zero anyway" shortcuts rely on zeroed scratch)
+            for s in [cheap_setting(m, rng)] + (gen.zero_settings(m, rng) if n in (1, 9, 129) else []):
+                for fill in (0, 1, 2, 3):
+                    un.append("obj 0 %d %d" % (rng.randrange(16), fill))
+                    un.append("%s 0 %s %s" % (rng.choice(("crypt_r", "crypt_rn")), hx(ph), hx(s)))
     ev4 = ctx.run_xcv(un)
     v4 = judge(ctx, ev4, "uninit", cfgev)
     # crypt_gensalt* under the sanitizers too: every prefix, boundary counts, sizes and byte counts (incl. negative)
@@ -909,6 +910,15 @@ GS_PREFIXES = [gen.PREFIX[m] for m in gen.METHODS if gen.PREFIX[m]] + [
 CHEAP_COUNT = {"yescrypt": [1, 2], "gost_yescrypt": [1], "scrypt": [6], "bcrypt": [4], "bcrypt_a": [4], "bcrypt_y": [4],
                "sha512crypt": [1000, 1001], "sha256crypt": [1000], "sha1crypt": [4, 40], "sunmd5": [0],
                "bsdicrypt": [1, 2], "md5crypt": [0], "nt": [0], "descrypt": [0], "bigcrypt": [0]}
+
+
+def count_wraps():
+    """counts that are a valid small count plus a multiple of 2^32 (or sit at the top of the 64-bit range): a generator
+    that narrows count to 32 bits, or to a signed type, takes them for the small value"""
+    out = []
+    for v in (1, 4, 5, 6, 11, 12, 31, 1000, 5000, 7, 725):
+        out += [v + 2 ** 32, v + 2 ** 33, v + 2 ** 63, 2 ** 64 - 2 ** 32 + v]
+    return out + [2 ** 64 - 1, 2 ** 64 - 5, 2 ** 64 - 9, 2 ** 63, 2 ** 63 - 1, 2 ** 32 - 1, 2 ** 32, 2 ** 31, 2 ** 31 - 1]
 
 
 def gs_cmd(fn, prefix, count, rb, nrbytes="len", size=192):
@@ -1062,6 +1072,7 @@ def c11(ctx):
     counts = sorted({c for c in counts if 0 <= c < 2 ** 64})
     if quick:
         counts = [c for i, c in enumerate(counts) if c <= 40 or i % 3 == 0 or c in (999, 1000, 1001, 999999999, 1000000000, 16777215, 16777216, 4294967295, 4294967296)]
+    counts = sorted(set(counts) | set(count_wraps()))
     cmds = []
     prefixes = [gen.PREFIX[m] for m in gen.METHODS if gen.PREFIX[m]] + ["", None]
     for pfx in prefixes:
@@ -1681,6 +1692,13 @@ def c02_corpus(rng, E, quick, fixed):
         for s in gen.numeric_wrap_settings():
             if gen.PREFIX[m] and s.startswith(gen.PREFIX[m]):
                 out.append((b"pw", s))
+        if m == "bigcrypt":
+            for ph, st in gen.BIGCRYPT_CHAIN_COLLISIONS:
+                out.append((ph.encode(), st + "." * 22))
+                out.append((ph.encode()[:16], st + "." * 22))
+        for s in gen.zero_settings(m, rng):
+            out.append((b"pw", s))
+            out.append((b"a-phrase-longer-than-eight", s))
         # the edges of the method's setting grammar (accepted or not: Settings.tla decides; what they hash to: the released library)
         for s in gen.grammar_boundaries(m, rng):
             out.append((b"pw", s))
